@@ -47,6 +47,7 @@ pub open spec fn tcb_ops(h: HuffmanOriginalEncoding, calc: HufftreeBitCalc, n: i
     }
 }
 /// all operations of predict_tree_for_block
+#[verifier::opaque]
 pub open spec fn tree_ops_def(h: HuffmanOriginalEncoding, f: FreqV, calc: HufftreeBitCalc) -> Seq<Op> {
     let bl0 = sp_bitlen(calc, f.lit, 15); let dl0 = sp_bitlen(calc, f.dist, 15);
     let p1 = if bl0.len() != h.num_literals { seq![Op::Mis(m_lc(), true), Op::Value((h.num_literals - 257) as u16, 5)] } else { seq![Op::Mis(m_lc(), false)] };
